@@ -33,6 +33,7 @@ pub mod c12;
 pub mod c09;
 pub mod c16;
 pub mod c15;
+pub mod c14;
 pub mod c17;
 
 use report::{Args, Report};
@@ -55,6 +56,7 @@ pub fn dispatch(cmd: &str, args: &Args, rep: &mut Report) -> bool {
         "C09" => c09::run(args, rep),
         "C16" => c16::run(args, rep),
         "C15" => c15::run(args, rep),
+        "C14" => c14::run(args, rep),
         "C17" => c17::run(args, rep),
         "try" => trycmd(args),
         "probe" => probecmd(args),
